@@ -49,7 +49,7 @@ Definition winit (k : Z) : wstate :=
 Fixpoint all_lists (n : nat) : list (list wop) :=
   match n with
   | O => [[]]
-  | S k => flat_map (fun l => [Accept :: l; Close :: l]) (all_lists k)
+  | S k => flat_map (fun l => [Accept :: l; Close true :: l]) (all_lists k)
   end.
 
 Definition is_accept (o : wop) : bool := match o with Accept => true | _ => false end.
